@@ -658,6 +658,35 @@ def _consumer_replace_table_equal_object(how):
     return "replace-table-by-equality", ok, "replace_table(%s) with the very object gives %r, with an equal object %r, with schema.tb %r" % (how, same_obj[:160], equal_obj[:160], via_schema[:160])
 
 
+def _consumer_render_keeps_inner_identity(route):
+    """Rendering a statement changes neither what the builders inside it equal nor how they hash (sets and dicts keep finding them)."""
+    reg = registry()
+    T, Q = reg["Table"], reg["Query"]
+    t, u = T("ta"), T("tb")
+    inner = Q.from_(u).select(u.x)                      # a builder without a name
+    so = Q.from_(u).select(u.x).union(Q.from_(u).select(u.y))
+    probe = so if route.endswith("setop") else inner
+    held = {probe: 1}
+    h0, e0 = hash(probe), probe == Q.from_(u).select(u.x)
+    if route.startswith("replace_table"):
+        outer = Q.from_(t).select(t.x).replace_table(t, probe)   # routed into FROM without from_()'s naming
+    elif route.startswith("in"):
+        outer = Q.from_(t).select(t.x).where(t.x.isin(probe))
+    elif route.startswith("cte"):
+        outer = Q.with_(probe, "c9").from_(reg["AliasedQuery"]("c9")).select("x")
+    else:
+        outer = Q.from_(t).select(t.x, probe)
+    for ctx_name in ("Query", "MySQLQuery", "PostgreSQLQuery"):
+        try:
+            outer.get_sql(reg[ctx_name].SQL_CONTEXT)
+            str(outer)
+        except Exception:
+            pass
+    ok = hash(probe) == h0 and (probe == Q.from_(u).select(u.x)) == e0 and probe in held and any(k_ is probe for k_ in held)
+    return "render-keeps-identity", ok, "after rendering the outer statement (%s) the inner builder hashes %s, is found in a dict: %s, alias %r" % (
+        route, "the same" if hash(probe) == h0 else "differently", probe in held, getattr(probe, "alias", None))
+
+
 CONSUMERS = [
     ("select-after-replace_table", lambda: _consumer_select_after_replace_table(False)),
     ("select-after-replace_table-star", lambda: _consumer_select_after_replace_table(True)),
@@ -676,6 +705,8 @@ CONSUMERS = [
     ("replace-table-equal-object-using", lambda: _consumer_replace_table_equal_object("using")),
     ("replace-table-equal-object-cross", lambda: _consumer_replace_table_equal_object("cross")),
     ("replace-table-equal-object-from", lambda: _consumer_replace_table_equal_object("from")),
+] + [("render-keeps-inner-identity-%s" % r_, (lambda r_=r_: _consumer_render_keeps_inner_identity(r_)))
+     for r_ in ("replace_table", "replace_table-setop", "in", "in-setop", "cte", "cte-setop", "select-item")] + [
     ("rejected-self-join-keeps-identity", lambda: _consumer_rejected_join_keeps_identity("self-join-foreign-criterion")),
     ("rejected-cte-join-keeps-identity", lambda: _consumer_rejected_join_keeps_identity("join-unknown-cte")),
     ("rejected-returning-keeps-identity", lambda: _consumer_rejected_join_keeps_identity("returning")),
